@@ -79,7 +79,22 @@ SeedF == <<   \* FASTA, two records
   L("FDESC",   ">seq2", 0),
   L("FDATA",   "ggcc", 4) >>
 
-Seeds == [s1 |-> Seed1, s2 |-> Seed2, sf |-> SeedF]
+\* every seed line carries its original index (id); a replaced line keeps the id of the line it replaces
+Ided(seed) == [j \in 1..Len(seed) |-> seed[j] @@ [id |-> j]]
+Seeds == [s1 |-> Ided(Seed1), s2 |-> Ided(Seed2), sf |-> Ided(SeedF)]
+
+\* Known finding "LenientLines", pinned to the places where the pinned commit skips a line it cannot
+\* place instead of reporting it (Seed1 line ids): a continuation line that starts before the indent
+\* (of DEFINITION 3, DBLINK 7, the ORGANISM taxonomy 11, COMMENT 18) and a malformed sub-field line
+\* inside REFERENCE (13..16).  NOT lenient - and therefore still reported: the ORGANISM sub-field
+\* line itself (10) and every top-level field line.
+LenientIds == {3, 7, 11, 13, 14, 15, 16, 18}
+\* the ORGANISM sub-field line (10) is checked strictly only where the SOURCE parser reads it, i.e. directly
+\* after an intact SOURCE line (9); orphaned (SOURCE deleted or replaced) it is one more unplaceable line
+OnlyLenientIndent(ls) ==
+  \A j \in 1..Len(ls) : ls[j].flag = "indent" =>
+     \/ ls[j].id \in LenientIds
+     \/ (ls[j].id = 10 /\ ~(j > 1 /\ ls[j - 1].text = Seed1[9].text))
 
 \* variants a line can be replaced by: <<variant name, new text, residues, flag or "">>
 Variants(ln) ==
@@ -108,7 +123,9 @@ Variants(ln) ==
          { <<"cont-shrunk", "           shrunk continuation indent", 0, "indent">>, <<"cont-grown", "             grown continuation indent", 0, "">>,
            <<"cont-empty", "", 0, "">> }
     [] ln.kind = "SUB" ->
-         { <<"sub-shifted", "   AUTHORS  Seed,A.", 0, "">>, <<"sub-wide", "  ORGANISMXXXXXX s", 0, "indent">> }
+         { <<"sub-shifted", "   AUTHORS  Seed,A.", 0, "">>, <<"sub-wide", "  ORGANISMXXXXXX s", 0, "indent">>,
+           \* a sub-field whose value starts one column before the indent
+           <<"sub-shrunk", "  ORGANISM s", 0, "indent">>, <<"sub-shrunk2", "  AUTHORS Seed,A.", 0, "indent">> }
     [] ln.kind = "FKEY" ->
          { <<"fkey-badloc", "     gene            join(5..", 0, "">>, <<"fkey-shrunk", "    gene            5..20", 0, "">>, <<"fkey-noloc", "     gene", 0, "">>,
            <<"fkey-wide", "     a_very_long_feature_key1..6", 0, "">>, <<"fkey-wide2", "     abcdefghijklmnopq1..6", 0, "">> }
@@ -135,7 +152,7 @@ ApplyMut(ls, m) ==
     [] m.a = "dup"     -> SubSeq(ls, 1, m.i) \o SubSeq(ls, m.i, Len(ls))
     [] m.a = "swap"    -> [ls EXCEPT ![m.i] = ls[m.i + 1], ![m.i + 1] = ls[m.i]]
     [] m.a = "replace" -> LET x == VariantNamed(ls[m.i], m.v) IN
-                          [ls EXCEPT ![m.i] = [kind |-> ls[m.i].kind, text |-> x[2], res |-> x[3], flag |-> x[4]]]
+                          [ls EXCEPT ![m.i] = [kind |-> ls[m.i].kind, text |-> x[2], res |-> x[3], flag |-> x[4], id |-> ls[m.i].id]]
     [] m.a = "append"  -> ls \o ls
     [] OTHER -> ls
 RECURSIVE ApplyAll(_, _)
